@@ -91,6 +91,7 @@ type Obligation struct {
 	Func    string
 	Src     string // clause source text
 	Script  string // full SMT-LIB query
+	More    []string // further queries of the same obligation (one per return path); all must have the expected result
 	Expect  string // "unsat" for proof obligations, "sat" for vacuity/cover
 	Pos     string
 	Claimed bool // counts toward the property (false: safety sweep only)
@@ -135,6 +136,7 @@ type Run struct {
 	callN, qctr, noDef, probing int
 	pureInsts  map[string]*pureInst
 	guards     map[string]*Term
+	topRets    []retRec
 	axiomsDone map[string]bool
 	axiomsUsed []string
 	tracker    *heapTracker
@@ -241,33 +243,43 @@ func (r *Run) assume(st *State, fact Term) {
 }
 
 func (r *Run) oblige(st *State, kind, name string, tags []string, goal Term, src string, claimed bool, pos token.Pos) {
+	r.obligeMulti([]*State{st}, []Term{goal}, kind, name, tags, src, claimed, pos)
+}
+
+// obligeMulti records one obligation made of several queries (one per path); all must be unsat.
+func (r *Run) obligeMulti(sts []*State, goals []Term, kind, name string, tags []string, src string, claimed bool, pos token.Pos) {
 	if r.probing > 0 {
 		return
 	}
-	if goal.S == "true" {
-		// trivially true goals are still counted (cheap), keeps obligation names stable
-	}
-	var b strings.Builder
-	b.WriteString(r.scriptFor(st.pc))
-	fmt.Fprintf(&b, "(assert %s)\n(assert (not %s))\n", st.pc.S, goal.S)
 	posS := ""
 	if pos.IsValid() {
 		p := r.eng.prog.Fset.Position(pos)
 		posS = fmt.Sprintf("%s:%d", p.Filename, p.Line)
 	}
-	if g, isKnown := r.guards[name]; isKnown {
-		// known finding: the failing class G is reported as known; outside G the obligation must still hold
-		kscript := b.String()
-		if g != nil {
-			kscript += fmt.Sprintf("(assert %s)\n", g.S)
-			b.WriteString(fmt.Sprintf("(assert (not %s))\n", g.S))
+	g, isKnown := r.guards[name]
+	var scripts, kscripts []string
+	for i, st := range sts {
+		var b strings.Builder
+		b.WriteString(r.scriptFor(st.pc))
+		fmt.Fprintf(&b, "(assert %s)\n(assert (not %s))\n", st.pc.S, goals[i].S)
+		if isKnown {
+			// known finding: the failing class G is reported as known; outside G the obligation must still hold
+			ks := b.String()
+			if g != nil {
+				ks += fmt.Sprintf("(assert %s)\n", g.S)
+				b.WriteString(fmt.Sprintf("(assert (not %s))\n", g.S))
+			}
+			kscripts = append(kscripts, ks)
 		}
-		r.obls = append(r.obls, &Obligation{Name: name + "?known", Kind: "known-finding", Tags: tags, Func: r.top.String(), Src: src, Script: kscript, Expect: "unsat", Claimed: claimed, Pos: posS})
+		scripts = append(scripts, b.String())
+	}
+	if isKnown {
+		r.obls = append(r.obls, &Obligation{Name: name + "?known", Kind: "known-finding", Tags: tags, Func: r.top.String(), Src: src, Script: kscripts[0], More: kscripts[1:], Expect: "unsat", Claimed: claimed, Pos: posS})
 		if g == nil {
 			return
 		}
 	}
-	o := &Obligation{Name: name, Kind: kind, Tags: tags, Func: r.top.String(), Src: src, Script: b.String(), Expect: "unsat", Claimed: claimed, Pos: posS}
+	o := &Obligation{Name: name, Kind: kind, Tags: tags, Func: r.top.String(), Src: src, Script: scripts[0], More: scripts[1:], Expect: "unsat", Claimed: claimed, Pos: posS}
 	r.obls = append(r.obls, o)
 }
 
@@ -451,6 +463,7 @@ type Frame struct {
 	loopPre  map[*ssa.BasicBlock]*State
 	top      bool
 	mapIters map[ssa.Value]*mapIter
+	curCall     *ssa.CallCommon
 	probeSink   func(*State)
 	probeHeader *ssa.BasicBlock
 }
@@ -649,6 +662,9 @@ func (r *Run) execFunction(fn *ssa.Function, args []Val, bindings []Val, st *Sta
 			cur = fr.enterLoop(li, cur)
 		}
 		fr.execBlock(b, cur)
+	}
+	if top {
+		r.topRets = fr.rets
 	}
 	if len(fr.rets) == 0 {
 		return nil, nil
